@@ -162,6 +162,8 @@ func init() {
 			{"counter9", 9, []string{"x", "x1", "1x"}, false, 3},
 			{"counter99", 99, []string{"x", "x1"}, false, 3},
 			{"counter0-fill9", 0, []string{"x", "x1"}, true, 4},
+			// consumer names whose characters mean something in a URL path: the reference must still designate the session
+			{"counter0-url-characters", 0, []string{"x%2Fy", "x%41", "x y", "x+y", "x?y#z", "x%zz"}, false, 2},
 		}
 		if rep.Tier == "thorough" {
 			scs[0].depth, scs[1].depth, scs[2].depth, scs[3].depth = 4, 4, 4, 5
@@ -194,7 +196,7 @@ func init() {
 		rep.Cov["scenarios"] = per
 		rep.Cov["schedules"] = sched
 		rep.Cov["distinct_outcomes"] = total.Outcomes
-		rep.Cov["method"] = "breadth-first search over create/update/release histories with subscriber identifiers one of which is a prefix of another (imsi-1, imsi-11, imsi-12), consumer names ending in digits / empty, and the global record counter preset to 0, 9, 99 (a macro operation advances it by 9); after every transition all unreleased references must be pairwise different strings and usage addressed to a reference must sit in the record opened by that create"
+		rep.Cov["method"] = "breadth-first search over create/update/release histories with subscriber identifiers one of which is a prefix of another (imsi-1, imsi-11, imsi-12), consumer names ending in digits / empty / containing percent-escapes, spaces, '+', '?' and '#', and the global record counter preset to 0, 9, 99 (a macro operation advances it by 9); after every transition all unreleased references must be pairwise different strings and usage addressed to a reference must sit in the record opened by that create"
 		return rep.Finish()
 	}
 }
